@@ -156,8 +156,12 @@ def gen_cfa_program(rng, caf, daf, cfa_reg, saved, n):
     free = list(saved)
     rng.shuffle(free)
     used = []
+    cfa_expr = False        # while the CFA is an expression only a full DW_CFA_def_cfa may redefine it (DWARF 6.4.2.2)
+    estack = []
     for i in range(n):
         k = rng.random()
+        if cfa_expr and (0.3 <= k < 0.5 or 0.7 <= k < 0.76 or 0.78 <= k < 0.8):
+            k = 0.77        # -> DW_CFA_def_cfa
         if k < 0.3:
             d = rng.choice([1, 2, 4, 7, 0x3f, 0x40, 300, 70000])
             if d < 0x40:
@@ -183,6 +187,7 @@ def gen_cfa_program(rng, caf, daf, cfa_reg, saved, n):
             out += b'\x0d' + uleb(rng.choice(saved))
         elif k < 0.78:
             out += b'\x0c' + uleb(cfa_reg) + uleb(cfa_off)
+            cfa_expr = False
         elif k < 0.8:
             # the signed, factored forms: with a negative data alignment factor a positive operand is a negative offset
             if rng.random() < 0.5:
@@ -192,14 +197,27 @@ def gen_cfa_program(rng, caf, daf, cfa_reg, saved, n):
         elif k < 0.86:
             out += b'\x0a'
             depth += 1
+            estack.append(cfa_expr)
         elif k < 0.92 and depth:
             out += b'\x0b'
             depth -= 1
+            cfa_expr = estack.pop()
         elif k < 0.96 and used:
             r = rng.choice(used)
             out += bytes([0xc0 | r]) if r < 0x40 else b'\x06' + uleb(r)
-        else:
+        elif k < 0.985:
             out += b'\x2e' + uleb(rng.choice([0, 16, 32]))      # DW_CFA_GNU_args_size
+        else:
+            # expression rules as unwinders of signal frames and PLT stubs use them
+            e = rng.choice([bytes([0x70 + cfa_reg if cfa_reg < 32 else 0x77, 0x08]), bytes([0x77, 0x08, 0x06]), bytes([0x76, 0x78, 0x23, 0x10])])
+            c = rng.random()
+            if c < 0.34:
+                out += b'\x0f' + uleb(len(e)) + e
+                cfa_expr = True
+            elif c < 0.67:
+                out += b'\x10' + uleb(rng.choice(saved)) + uleb(len(e)) + e
+            else:
+                out += b'\x16' + uleb(rng.choice(saved)) + uleb(len(e)) + e
     return bytes(out)
 
 
@@ -220,7 +238,25 @@ def gen_frames_file(rng):
         sec = bytearray()
         for c in range(rng.choice([1, 2])):
             cie_off = len(sec)
-            body = struct.pack('<IB', 0, 1) + b'zR\0' + uleb(caf) + sleb(daf) + uleb(ra) + uleb(1) + bytes([0x1b]) + init
+            aug = rng.choice(['zR', 'zR', 'zPLR', 'zPR', 'zLR'])
+            penc = rng.choice([0x00, 0x03, 0x1b, 0x9b])
+            lenc = rng.choice([0x03, 0x1b, 0x0b])
+            augdata = b''
+            for ch in aug[1:]:
+                if ch == 'R':
+                    augdata += bytes([0x1b])
+                elif ch == 'L':
+                    augdata += bytes([lenc])
+                else:
+                    pv = 0x401234
+                    if penc & 0x0f == 0x00:
+                        pb = struct.pack(A, pv)
+                    elif penc & 0x70 == 0x10:
+                        pb = struct.pack('<i', pv - (base + cie_off + 8 + 1 + len(aug) + 1 + len(uleb(caf)) + len(sleb(daf)) + len(uleb(ra)) + 1 + len(augdata) + 1))
+                    else:
+                        pb = struct.pack('<I', pv)
+                    augdata += bytes([penc]) + pb
+            body = struct.pack('<IB', 0, 1) + aug.encode() + b'\0' + uleb(caf) + sleb(daf) + uleb(ra) + uleb(len(augdata)) + augdata + init
             body += b'\0' * (-(len(body) + 4) % asz)
             sec += struct.pack('<I', len(body)) + body
             for f in range(rng.choice([1, 2, 4])):
@@ -228,7 +264,11 @@ def gen_frames_file(rng):
                 prog = gen_cfa_program(rng, caf, daf, cfa_reg, saved, rng.choice([2, 6, 15]))
                 pc = 0x1000 + 0x100 * f + 0x1000 * c
                 field = base + fde_off + 8
-                fb = struct.pack('<I', fde_off + 4 - cie_off) + struct.pack('<i', pc - field) + struct.pack('<I', rng.choice([0x20, 0x80, 0x1234])) + uleb(0) + prog
+                fa = b''
+                if 'L' in aug:
+                    lv = 0x402000 + 0x10 * f
+                    fa = struct.pack('<I', lv) if lenc == 0x03 else (struct.pack('<i', lv - (field + 8 + 1)) if lenc == 0x1b else struct.pack('<i', lv))
+                fb = struct.pack('<I', fde_off + 4 - cie_off) + struct.pack('<i', pc - field) + struct.pack('<I', rng.choice([0x20, 0x80, 0x1234])) + uleb(len(fa)) + fa + prog
                 fb += b'\0' * (-(len(fb) + 4) % asz)
                 sec += struct.pack('<I', len(fb)) + fb
         sec += b'\0\0\0\0'
@@ -240,17 +280,33 @@ def gen_frames_file(rng):
         vers = []
         for c in range(rng.choice([1, 2])):
             ver = rng.choice([1, 3, 4])
-            vers.append(ver)
-            cie_off = len(sec)
-            body = struct.pack('<IB', 0xffffffff, ver) + b'\0' + (bytes([asz, 0]) if ver == 4 else b'') + uleb(caf) + sleb(daf) + \
-                (bytes([ra]) if ver == 1 else uleb(ra)) + init
-            body += b'\0' * (-(len(body) + 4) % asz)
-            sec += struct.pack('<I', len(body)) + body
+            fmt64 = rng.random() < 0.25
+            vers.append((ver, 64 if fmt64 else 32))
+            body = (struct.pack('<QB', 2 ** 64 - 1, ver) if fmt64 else struct.pack('<IB', 0xffffffff, ver)) + b'\0' + \
+                (bytes([asz, 0]) if ver == 4 else b'') + uleb(caf) + sleb(daf) + (bytes([ra]) if ver == 1 else uleb(ra)) + init
+            body += b'\0' * (-(len(body) + (12 if fmt64 else 4)) % asz)
+            cie = (b'\xff\xff\xff\xff' + struct.pack('<Q', len(body)) if fmt64 else struct.pack('<I', len(body))) + body
+            fdes = []
             for f in range(rng.choice([1, 3])):
                 prog = gen_cfa_program(rng, caf, daf, cfa_reg, saved, rng.choice([2, 6, 15]))
-                fb = struct.pack('<I', cie_off) + struct.pack(A, 0x401000 + 0x200 * f) + struct.pack(A, rng.choice([0x10, 0x1f0])) + prog
-                fb += b'\0' * (-(len(fb) + 4) % asz)
-                sec += struct.pack('<I', len(fb)) + fb
+                fdes.append((struct.pack(A, 0x401000 + 0x200 * f) + struct.pack(A, rng.choice([0x10, 0x1f0])) + prog))
+
+            def fde_bytes(tail, cie_at):
+                fb = (struct.pack('<Q', cie_at) if fmt64 else struct.pack('<I', cie_at)) + tail
+                fb += b'\0' * (-(len(fb) + (12 if fmt64 else 4)) % asz)
+                return (b'\xff\xff\xff\xff' + struct.pack('<Q', len(fb)) if fmt64 else struct.pack('<I', len(fb))) + fb
+            if False:       # an FDE in front of its CIE is mishandled by GNU readelf itself (binutils bug 31973): not an oracle
+                # the first FDE in front of its CIE (allowed in .debug_frame: the pointer is a section offset)
+                first = fde_bytes(fdes[0], 0)
+                cie_at = len(sec) + len(first)
+                sec += fde_bytes(fdes[0], cie_at) + cie
+                rest = fdes[1:]
+            else:
+                cie_at = len(sec)
+                sec += cie
+                rest = fdes
+            for tail in rest:
+                sec += fde_bytes(tail, cie_at)
         secs['.debug_frame'] = bytes(sec)
         shape['debug_frame'] = vers
     tiny = dwtab.CU(version=4, asz=asz)
